@@ -35,10 +35,17 @@ def make_fn(k: int):
 class Op(flow.Actor):
     """Stateless symbolic actor with any number of inputs and `szout` outputs."""
 
-    def __init__(self, name: str, szout: int = 1, function: typing.Optional[typing.Callable] = None):
+    def __init__(self, name: str, szout: int = 1, function: typing.Optional[typing.Callable] = None,
+                 returns_none: bool = False):
+        import threading  # pylint: disable=import-outside-toplevel
+
         self.name = name
         self.szout = szout
         self.function = function
+        self.returns_none = returns_none
+        # like many real actors (clients, sessions, locks): the INSTANCE does not pickle - its builder (class and
+        # hyper-parameters) does, and that is all a runner may ship between processes
+        self._guard = threading.Lock()
 
     def apply(self, *args):
         _log('exec', self.name)
@@ -54,6 +61,8 @@ class Op(flow.Actor):
             raise forml.InvalidError(f'injected transient fault at {self.name}')
         if self.function is not None:
             args = tuple(self.function(a) for a in args)
+        if self.returns_none:
+            return None  # a legal value like any other ("nothing to report"): consumers see it as an absent argument
         if self.szout == 1:
             return (self.name, *args)
         return tuple((self.name, i, *args) for i in range(self.szout))
@@ -71,6 +80,9 @@ class Out(flow.Actor):
         return args
 
 
+NONE_VALUES = True
+
+
 def gen_dag(rng: random.Random) -> dict:
     """A random single-head single-tail apply-mode DAG: nodes[i] = {szin, szout, inputs:[(src node, src port)]}."""
     nodes = [{'name': 'n0', 'szin': 1, 'szout': rng.choice([1, 1, 2]), 'inputs': [], 'fn': None}]
@@ -83,6 +95,8 @@ def gen_dag(rng: random.Random) -> dict:
         fn = rng.randrange(3) if rng.random() < 0.25 else None
         nodes.append({'name': f'n{i}' if fn is None else 'lam', 'szin': szin, 'szout': rng.choice([1, 1, 1, 2]),
                       'inputs': inputs, 'fn': fn})
+        if NONE_VALUES and nodes[-1]['szout'] == 1 and fn is None and rng.random() < 0.12:
+            nodes[-1]['none'] = True
     used = {src for n in nodes for src, _ in n['inputs']}
     dangling = [i for i in range(len(nodes)) if i not in used]
     extra = [rng.randrange(len(nodes)) for _ in range(rng.choice([0, 0, 1]))]
@@ -101,6 +115,8 @@ def build_segment(dag: dict) -> flow.Segment:
             kwargs = {'name': node['name'], 'szout': node['szout']}
             if node['fn'] is not None:
                 kwargs['function'] = make_fn(node['fn'])
+            if node.get('none'):
+                kwargs['returns_none'] = True
             builder = Op.builder(**kwargs)
         workers.append(flow.Worker(builder, node['szin'], node['szout']))
     for idx, node in enumerate(dag['nodes']):
